@@ -96,6 +96,11 @@ func generate(repo string) (*Run, error) {
 			r.obls = append(r.obls, ob)
 			r.owner[ob] = fc
 		}
+		if tags := c.Opts["scan-complete"]; tags != "" {
+			ob := r.scanBytesObligation(fc, strings.Fields(tags))
+			r.obls = append(r.obls, ob)
+			r.owner[ob] = fc
+		}
 	}
 	for _, c := range w.cs.Contracts {
 		r.rtc = append(r.rtc, w.newRtcFunc(c))
